@@ -142,13 +142,13 @@ def _batches(chk, exe, model, state, samples, quick):
         vlib.digest_batch(chk, b[0], b[1], classify, state)
     # ---- generated
     dist = {}
-    b = vlib.run_batch(chk, "%s dedup -seed %d -n %d -out {out}" % (exe, seed, 3000 if quick else 200000), model, "dedup", timeout=3000)
+    b = vlib.run_batch(chk, "%s dedup -seed %d -n %d -out {out}" % (exe, seed, 4000 if quick else 200000), model, "dedup", timeout=3000)
     if b:
         vlib.digest_batch(chk, b[0], b[1], classify, state)
         samples += [c[:300] for c in sorted(b[0][:40], key=len)[-1:]]
         dist["dedup"] = {"cases": len(b[0]), "malformed": _count(b[0], "(c09 dedup mal"),
                          "with_duplicate_removed": sum(1 for c in b[0] if c.split("(out")[0].count("(lf ") > c.split("(out")[-1].count("(lf "))}
-    b = vlib.run_batch(chk, "%s rename -seed %d -n %d -out {out}" % (exe, seed, 120 if quick else 6000), model, "rename", timeout=3000)
+    b = vlib.run_batch(chk, "%s rename -seed %d -n %d -out {out}" % (exe, seed, 240 if quick else 6000), model, "rename", timeout=3000)
     if b:
         vlib.digest_batch(chk, b[0], b[1], classify, state)
         samples += [c[:300] for c in b[0][:1]]
@@ -157,14 +157,14 @@ def _batches(chk, exe, model, state, samples, quick):
                                      ("lit", "var", "ren", "mix", "frag", "short")},
                           "prepare_rejected": _count(b[0], "(prepare-error")}
     b = vlib.run_batch(chk, "%s det -seed %d -n %d -procs %d -reps 3 -opts %s -out {out}" %
-                       (exe, seed, 6 if quick else 120, procs, "x" if quick else "all"), model, "det", timeout=6000)
+                       (exe, seed, 8 if quick else 40, procs, "x" if quick else "all"), model, "det", timeout=6000)
     if b:
         vlib.digest_batch(chk, b[0], b[1], classify, state)
         dist["det"] = det_distribution(b[0])
         dist["det"]["processes"] = procs
         samples += [c[:300] for c in b[0][:1]]
     b = vlib.run_batch(chk, "%s hist -seed %d -n %d -opts %s -workers 8 -out {out}" %
-                       (exe, seed, 45 if quick else 1500, "sample3" if quick else "all"), model, "hist", timeout=20000)
+                       (exe, seed, 80 if quick else 600, "sample4" if quick else "all"), model, "hist", timeout=20000)
     if b:
         vlib.digest_batch(chk, b[0], b[1], classify, state)
         dist["hist"] = hist_distribution(b[0])
